@@ -171,7 +171,7 @@ def run(ctx, p):
         raise Skip("costly_class_thinned")
     cls = C.load(e["path"])
     rng = np.random.default_rng(p["seed"])
-    d = C.draw(ctx, cls, ent, rng, n=10)
+    d = C.draw(ctx, cls, ent, rng, n=10 if e["cost"] >= 0.05 else 40)      # cheap closed forms: more points, more regions per case
     if d is None:
         raise Skip("no_admissible_draw")
     geom = d["geom"]
